@@ -58,7 +58,8 @@ def gen_one(rng):
             ops.append(["mutget"])
         else:
             cur = rng.choice([cur, cur, max(1, cur - 1), cur + 2, rng.choice(CAPS)])
-            ops.append(["saveload", cur])
+            # load into a fresh buffer, or into one that already holds a few (other) samples
+            ops.append(["saveload", cur, rng.choice([0, 0, 1, 2, cur])])
     case["ops"] = ops
     return case
 
